@@ -9,7 +9,8 @@ for f in sorted(glob.glob(os.path.join(ROOT, "seeded", "*", "meta.json"))):
     caught = "; ".join(re.sub(r" at /\S+", "", c) for c in d.get("caught_by", [])[:2])
     verdict = d["verdict"]
     note = d.get("note", "")
-    rows.append(f"| {d['name']} | {files} | {verdict} | {caught or note} |")
-print("| seeded break | file(s) changed | verdict | first kinds reported (check/engine: kind (cases)) |")
-print("|---|---|---|---|")
+    first = {"exit1": "caught", "exit0": "missed", "exit2": "inconclusive"}.get(d.get("own_check_first_run", "").split(":")[-1], "-")
+    rows.append(f"| {d['name']} | {files} | {first} | {verdict} | {caught or note} |")
+print("| seeded break | file(s) changed | own check, first recorded run | now | first kinds reported (check/engine: kind (cases)) |")
+print("|---|---|---|---|---|")
 print("\n".join(rows))
